@@ -1,11 +1,13 @@
 #!/bin/bash
-# developer tool: seedtest.sh <patch.diff> <Cxx> [--only substr] : apply a seeded change to /repo, run the quick check, undo.
-P=$1; C=$2; shift 2; [ -d "$P" ] && P="$P/patch.rebased.diff"
-cd /repo || exit 9
-if ! git diff --quiet; then echo "repo dirty"; exit 9; fi
-if ! git apply --check "$P" 2>/dev/null; then echo "PATCH-DOES-NOT-APPLY $P"; exit 8; fi
-git apply "$P"
-cd /verif && ./check $C --tier quick "$@" > /tmp/seedtest.$$.log 2>&1; rc=$?
-git -C /repo reset --hard HEAD -q
+# developer tool: seedtest.sh <seed dir | patch.diff> <Cxx> [--only substr]
+# Applies a seeded change to a SCRATCH WORKTREE of /repo HEAD (never to /repo itself), points the check at it through PYTHONPATH,
+# runs the quick check with evidence / replays redirected to /tmp, removes the worktree.
+P=$1; C=$2; shift 2; [ -d "$P" ] && { [ -f "$P/patch.rebased.diff" ] && P="$P/patch.rebased.diff" || P="$P/patch.diff"; }
+WT=/tmp/seedtest_wt_$$
+git -C /repo worktree add --detach $WT HEAD -q || exit 9
+if ! git -C $WT apply --check "$P" 2>/dev/null; then echo "PATCH-DOES-NOT-APPLY $P"; git -C /repo worktree remove --force $WT; exit 8; fi
+git -C $WT apply "$P"
+cd /verif && PYTHONPATH=$WT/src VERIF_EVIDENCE_DIR=/tmp/seedtest_evidence VERIF_REPLAY_DIR=/tmp/seedtest_replays ./check $C --tier quick "$@" > /tmp/seedtest.$$.log 2>&1; rc=$?
+git -C /repo worktree remove --force $WT
 grep -E "VIOLATION|KNOWN|HARNESS-ERROR|tier=" /tmp/seedtest.$$.log | cut -c1-400 | head -8
 echo "exit=$rc"; rm -f /tmp/seedtest.$$.log
